@@ -224,24 +224,31 @@ TARGET_BASES = {
 }
 
 
-def targeted_schedule(site, tmp):
-    """Shortest schedule (from TLC's counterexample to NeverAt) that parks a thread at `site`; None if unreachable."""
-    for base, c in TARGET_BASES.items():
-        cfg = os.path.join(tmp, "target_%s_%s.cfg" % (base, site.replace(".", "_")))
+# pattern schedules that are replayed in every run: (invariant of Gen_TaskRemote_target whose shortest counterexample
+# is the schedule, base constants)
+PATTERNS = [
+    ("NeverWakeAfterPoll", dict(Setup="cold", NW=2, SyncCap=2, MaxTicks=2, MaxJPolls=1, JCmds="{}")),
+]
+
+
+def targeted_schedule(site, tmp, inv="NeverAt", bases=None):
+    """Shortest schedule (from TLC's counterexample to `inv`) e.g. one that parks a thread at `site`; None if unreachable."""
+    for base, c in (bases or TARGET_BASES).items():
+        cfg = os.path.join(tmp, "target_%s_%s.cfg" % (base, (site or inv).replace(".", "_")))
         with open(cfg, "w") as f:
             f.write("CONSTANTS\n  Setup = \"%s\"\n  NW = %d\n  SyncCap = %d\n  MaxTicks = %d\n  MaxJPolls = %d\n"
                     "  MaxWakes = 1\n  JCmds = %s\n  HCmds = {\"tick\", \"clear\", \"execdrop\"}\n  Spurious = TRUE\n"
                     "  Strict = TRUE\n  Fix = {\"D10a\", \"D10b\", \"D11\", \"D12\"}\n  Site = \"%s\"\n"
-                    "SPECIFICATION Spec\nINVARIANTS NeverAt\n" %
-                    (c["Setup"], c["NW"], c["SyncCap"], c["MaxTicks"], c["MaxJPolls"], c["JCmds"], site))
-        dump = os.path.join(tmp, "trace_%s.json" % site.replace(".", "_"))
+                    "SPECIFICATION Spec\nINVARIANTS %s\n" %
+                    (c["Setup"], c["NW"], c["SyncCap"], c["MaxTicks"], c["MaxJPolls"], c["JCmds"], site or "none", inv))
+        dump = os.path.join(tmp, "trace_%s.json" % (site or inv).replace(".", "_"))
         if os.path.exists(dump):
             os.unlink(dump)
         r = vlib.tlc("Gen_TaskRemote_target", cfg, coverage=False, workers=2, timeout=900,
                      extra=["-dumpTrace", "json", dump])
         if r.error:
             raise vlib.ToolError("targeted schedule for %s: %s\n%s" % (site, r.error, r.out[-1500:]))
-        if r.violated == "NeverAt" and os.path.exists(dump):
+        if r.violated == inv and os.path.exists(dump):
             return trace_to_schedule(json.load(open(dump)), c)
     return None
 
@@ -446,6 +453,13 @@ def run(run, tier, replay):
         rpath = os.path.join(tmp, "regression.jsonl")
         nreg = 0
         with open(rpath, "w") as f:
+            for inv, consts in PATTERNS:
+                sch = targeted_schedule("", tmp, inv=inv, bases={"pattern": consts})
+                if sch is None:
+                    raise vlib.ToolError("pattern schedule %s: the model has no such behaviour" % inv)
+                sch["pattern"] = inv
+                f.write(json.dumps(sch) + "\n")
+                nreg += 1
             for cfg, c in REGRESSION.items():
                 dump = os.path.join(tmp, cfg + ".trace.json")
                 if not os.path.exists(dump):
@@ -455,10 +469,10 @@ def run(run, tier, replay):
                 sch["regression_of"] = cfg
                 f.write(json.dumps(sch) + "\n")
                 nreg += 1
-        s, d = replay_bin(run, "replay_remote", [rpath], "remote regression schedules")
-        classify(run, s, d, "remote regression schedules (counterexamples of the repaired defects)")
+        s, d = replay_bin(run, "replay_remote", [rpath], "remote pattern and regression schedules")
+        total_drift += classify(run, s, d, "remote pattern schedules and regression schedules (counterexamples of the repaired defects)")
         run.add_traces(s["cases"])
-        run.note("remote_regression_schedules_replayed", nreg)
+        run.note("remote_pattern_and_regression_schedules_replayed", nreg)
         run.note("remote_schedules_replayed", nrem)
         if missing and not run.violations:
             raise vlib.ToolError("binding lost: hook points never exercised by the replayed schedules: %s" % missing)
